@@ -237,6 +237,11 @@ func (group *AbacoGroup) fillMissingPackets() (bytesAdded, packetsAdded, framesA
 	cap := group.queue[len(group.queue)-1].SequenceNumber() - group.lastSN
 	newq := make([]*packets.Packet, 0, cap)
 	snexpect := group.lastSN + 1
+	// Packets still queued from an earlier call were checked then (and are contiguous);
+	// start the count at the first of them instead of counting them a second time.
+	if first := group.queue[0].SequenceNumber(); first < snexpect {
+		snexpect = first
+	}
 	for _, p := range group.queue {
 		sn := p.SequenceNumber()
 		for snexpect < sn {
